@@ -827,6 +827,16 @@ impl Core {
         )
     }
 
+    /// The ICMP part of [`Core::listen`]: runs the raw-socket listener of the ICMP forwarder
+    pub async fn verif_listen_icmp(&self) -> io::Result<()> {
+        self.listen_icmp().await
+    }
+
+    /// Number of echo requests the ICMP forwarder is still waiting a reply for
+    pub fn verif_icmp_waiters(&self) -> Option<usize> {
+        self.context.icmp_forwarder.as_ref().map(|f| f.verif_waiters())
+    }
+
     /// The body of a `GET /metrics` response at this moment
     pub fn verif_metrics_text(&self) -> String {
         self.context.metrics.verif_collect()
